@@ -229,9 +229,11 @@ func scField(pos, key, field string, alt int) func(x *vs.Exec) {
 // scClientField: the model server sends a deviated message to the real frpc.
 func scClientField(key, field string, alt int) func(x *vs.Exec) {
 	return func(x *vs.Exec) {
-		w := cw.New(x, cw.Opt{HeartbeatInterval: 1, HeartbeatTimeout: 3, Proxies: []v1.ProxyConfigurer{cw.TCPProxy("web", 8080, 9000)}})
+		v1p, v2p := cw.TCPProxy("webv1", 8080, 9001), cw.TCPProxy("webv2", 8080, 9002)
+		v1p.Transport.ProxyProtocolVersion, v2p.Transport.ProxyProtocolVersion = "v1", "v2"
+		w := cw.New(x, cw.Opt{HeartbeatInterval: 1, HeartbeatTimeout: 3, Proxies: []v1.ProxyConfigurer{cw.TCPProxy("web", 8080, 9000), v1p, v2p}})
 		w.StartBackend(8080)
-		vs.Block("up", func() bool { return w.Srv.LiveCount() == 1 && len(w.Srv.Registered()) == 1 || x.Now() > 30*time.Second })
+		vs.Block("up", func() bool { return w.Srv.LiveCount() == 1 && len(w.Srv.Registered()) == 3 || x.Now() > 30*time.Second })
 		se := w.Srv.LiveSession()
 		if se == nil {
 			vs.Fail("setup: client did not come up")
@@ -243,6 +245,9 @@ func scClientField(key, field string, alt int) func(x *vs.Exec) {
 			"Pong":          &msg.Pong{},
 			"NatHoleResp":   &msg.NatHoleResp{TransactionID: "t", Sid: "s", CandidateAddrs: []string{"1.1.1.1:1"}},
 			"StartWorkConn": &msg.StartWorkConn{ProxyName: "web", SrcAddr: "1.2.3.4", SrcPort: 1, DstAddr: "5.6.7.8", DstPort: 2},
+			// the same for proxies that prepend a PROXY protocol header built from these fields
+			"StartWorkConn@v1": &msg.StartWorkConn{ProxyName: "webv1", SrcAddr: "1.2.3.4", SrcPort: 1, DstAddr: "5.6.7.8", DstPort: 2},
+			"StartWorkConn@v2": &msg.StartWorkConn{ProxyName: "webv2", SrcAddr: "1.2.3.4", SrcPort: 1, DstAddr: "5.6.7.8", DstPort: 2},
 			"Login":         &msg.Login{User: "server-sends-login"},
 			"NewProxy":      &msg.NewProxy{ProxyName: "web", ProxyType: "tcp"},
 			"Ping":          &msg.Ping{},
@@ -257,7 +262,7 @@ func scClientField(key, field string, alt int) func(x *vs.Exec) {
 			return
 		}
 		vs.SetInterest(true)
-		if key == "StartWorkConn" {
+		if strings.HasPrefix(key, "StartWorkConn") {
 			// on the pooled work connection the client opened
 			vs.Block("workconn", func() bool { return len(se.Work) > 0 || x.Now() > 40*time.Second })
 			if len(se.Work) > 0 {
@@ -271,9 +276,9 @@ func scClientField(key, field string, alt int) func(x *vs.Exec) {
 		// the client must still be (or again be) connected with its proxy registered
 		t0 := x.Now()
 		vs.Block("healthy", func() bool {
-			return (w.Srv.LiveCount() == 1 && fmt.Sprint(w.Srv.Registered()) == "[web]") || x.Now() > t0+90*time.Second
+			return (w.Srv.LiveCount() == 1 && fmt.Sprint(w.Srv.Registered()) == "[web webv1 webv2]") || x.Now() > t0+90*time.Second
 		})
-		if !(w.Srv.LiveCount() == 1 && fmt.Sprint(w.Srv.Registered()) == "[web]") {
+		if !(w.Srv.LiveCount() == 1 && fmt.Sprint(w.Srv.Registered()) == "[web webv1 webv2]") {
 			vs.Fail("server sent %s.%s#%d: 90 s later the client has no session with its proxy registered (sessions=%d registered=%v)", key, field, alt, w.Srv.LiveCount(), w.Srv.Registered())
 		}
 		w.Svc.Close()
@@ -604,7 +609,7 @@ func main() {
 			}
 		}
 	}
-	ckeys := map[string]msg.Message{"NewProxyResp": &msg.NewProxyResp{}, "ReqWorkConn": &msg.ReqWorkConn{}, "Pong": &msg.Pong{}, "NatHoleResp": &msg.NatHoleResp{}, "StartWorkConn": &msg.StartWorkConn{},
+	ckeys := map[string]msg.Message{"NewProxyResp": &msg.NewProxyResp{}, "ReqWorkConn": &msg.ReqWorkConn{}, "Pong": &msg.Pong{}, "NatHoleResp": &msg.NatHoleResp{}, "StartWorkConn": &msg.StartWorkConn{}, "StartWorkConn@v1": &msg.StartWorkConn{}, "StartWorkConn@v2": &msg.StartWorkConn{},
 		"Login": &msg.Login{}, "NewProxy": &msg.NewProxy{}, "Ping": &msg.Ping{}, "UDPPacket": &msg.UDPPacket{}, "NatHoleSid": &msg.NatHoleSid{}, "CloseProxy": &msg.CloseProxy{}}
 	for key, base := range ckeys {
 		fs := fieldsOf(base)
